@@ -284,14 +284,22 @@ class _Norm:
         return None
 
     def _loads_outside(self, loop: ast.AST) -> Set[str]:
-        if getattr(self, '_extra_inside', None) is not None:
-            inside = {id(n) for n in ast.walk(loop)} | \
-                {id(n) for n in ast.walk(self._extra_inside)}
-            return {n.id for n in ast.walk(self.fn) if isinstance(n, ast.Name)
-                    and isinstance(n.ctx, ast.Load) and id(n) not in inside}
         inside = {id(n) for n in ast.walk(loop)}
+        if getattr(self, '_extra_inside', None) is not None:
+            inside |= {id(n) for n in ast.walk(self._extra_inside)}
+        # a read inside the body of another loop that binds the same name as its own
+        # target sees that loop's binding, not ours
+        shadowed: Set[int] = set()
+        for other in ast.walk(self.fn):
+            if isinstance(other, ast.For) and other is not loop:
+                tn = _targets(other.target)
+                for st in other.body:
+                    for n in ast.walk(st):
+                        if isinstance(n, ast.Name) and n.id in tn:
+                            shadowed.add(id(n))
         return {n.id for n in ast.walk(self.fn) if isinstance(n, ast.Name)
-                and isinstance(n.ctx, ast.Load) and id(n) not in inside}
+                and isinstance(n.ctx, ast.Load) and id(n) not in inside
+                and id(n) not in shadowed}
 
     def loop(self, loop: ast.For, x: str, kind: str):
         if loop.orelse or not isinstance(loop, ast.For):
